@@ -234,6 +234,27 @@ def label_graphs(c: Ctr, thorough: bool):
         r1 = [("label", "X1"), c.op(), ("if", [(False, [c.cond()], [(kind, "X0")])], None), c.op(), ("ctrl", "end")]
         progs.append(print_program([("def 0", r0), ("def 1 for actor A", r1)]))
         progs.append(print_program([("coro A", r0), ("coro B", r1)]))
+    # across routines, every spot of the target routine incl. spots that only a jump can reach (behind return / jump / break), with the
+    # jumping routine before and after the target routine, and the target routine ending in the switch or in further code
+    spots2 = ["start", "mid", "inif", "behind-return", "inloop", "incase", "behind-jump", "behind-break", "end"]
+    for a, b in itertools.permutations(spots2, 2):
+        if not thorough and (spots2.index(a) + 2 * spots2.index(b)) % 3 == 0:
+            continue
+        for kind in ("jump", "call"):
+            name_spot = {"YA": a, "YB": b}
+
+            def at2(sp):
+                return [("label", n) for n, s_ in name_spot.items() if s_ == sp]
+            for tail in (0, 1):
+                tgt = at2("start") + [c.op()] + at2("mid") + [
+                    ("if", [(False, [c.cond()], at2("inif") + [c.op(), ("ctrl", "return")] + at2("behind-return"))], None),
+                    ("while", False, c.cond(), at2("inloop") + [c.op()]),
+                    ("switch", "$SW", [("1", at2("incase") + [c.op(), ("jump", "YE")] + at2("behind-jump") + [("ctrl", "break")]),
+                                       ("2", [c.op(), ("ctrl", "break")] + at2("behind-break"))])]
+                tgt += ([c.op()] if tail else []) + at2("end") + [("label", "YE")] + ([("ctrl", "hold")] if tail else [])
+                src = [c.op(), ("if", [(False, [c.cond()], [(kind, "YA")])], None), c.op(), (kind, "YB")]
+                order = [("def 0", src), ("def 1 for actor A", tgt)] if (spots2.index(a) + tail) % 2 == 0 else [("def 0", tgt), ("def 1 for actor A", src)]
+                progs.append(print_program(order))
     return progs
 
 
